@@ -160,6 +160,12 @@ fn process_dir(
     matcher: &dyn matchers::Matcher,
     quit: &mut bool,
 ) -> i32 {
+    // No entry has a depth in an empty range. (walkdir would silently lower min_depth
+    // to max_depth and yield the entries at that depth.)
+    if config.min_depth > config.max_depth {
+        return 0;
+    }
+
     let mut walkdir = WalkDir::new(dir)
         .contents_first(config.depth_first)
         .max_depth(config.max_depth)
